@@ -35,6 +35,9 @@ type obs struct {
 	closed  bool
 	logIdx  int
 	sent    int
+	threads []*vsched.Thread // writer threads, index = writer
+	doneAt  []int            // Blocked counter of writer i when its context was first seen done (-1: not yet)
+	stuck   string           // a writer kept waiting although its context had ended
 }
 
 func (o *obs) sample(x *vsched.Exec) {
@@ -61,6 +64,33 @@ func (o *obs) sample(x *vsched.Exec) {
 		}
 	}
 	sent := o.sent
+	// blocking mode must be cancellable: once the caller's context has ended the call may not keep waiting
+	for i, w := range o.ws {
+		if i >= len(o.threads) || i >= len(o.ctxs) || o.threads[i] == nil || o.stuck != "" {
+			continue
+		}
+		inFlight := false
+		for _, c := range w.Calls {
+			if c.End < 0 && c.Begin > 0 {
+				inFlight = true
+			}
+		}
+		ended := false
+		select {
+		case <-o.ctxs[i].Done():
+			ended = true
+		default:
+		}
+		if !inFlight || !ended {
+			o.doneAt[i] = -1
+			continue
+		}
+		if o.doneAt[i] < 0 {
+			o.doneAt[i] = o.threads[i].Blocked
+		} else if o.threads[i].Blocked > o.doneAt[i] {
+			o.stuck = fmt.Sprintf("writer %s is still waiting inside its write call although its context has ended", w.Name)
+		}
+	}
 	if ok-sent > o.maxGap {
 		o.maxGap = ok - sent
 		o.gapInfo = fmt.Sprintf("%d calls had returned success, %d payloads handed to the transport (queue %d/%d)", ok, sent, ql, qc)
@@ -120,9 +150,15 @@ func scenario(cfg hlib.ChanCfg, specs []wspec, closer bool, bound int, tag strin
 				o.ctxs = append(o.ctxs, c)
 			}
 			var ths []*vsched.Thread
+			o.doneAt = make([]int, len(o.ws))
+			for i := range o.doneAt {
+				o.doneAt[i] = -1
+			}
 			for i, w := range o.ws {
 				w, c := w, o.ctxs[i]
-				ths = append(ths, vsched.Go(w.Name, func() { w.Run(o.env.Ch, c) }))
+				th := vsched.Go(w.Name, func() { w.Run(o.env.Ch, c) })
+				ths = append(ths, th)
+				o.threads = append(o.threads, th)
 			}
 			if len(cancels) > 0 {
 				ths = append(ths, vsched.Go("canceller", func() {
@@ -206,6 +242,9 @@ func scenario(cfg hlib.ChanCfg, specs []wspec, closer bool, bound int, tag strin
 					}
 				}
 			}
+			if o.stuck != "" {
+				fs = append(fs, explore.Finding{Key: "not-cancellable", Msg: o.stuck + ";" + ctxs})
+			}
 			limit := cfg.Q + cfg.Q/2 + 1
 			if o.maxGap > limit {
 				fs = append(fs, explore.Finding{Key: "too-many-unsent", Msg: fmt.Sprintf("%s; the limit is queue size + batch = %d;%s", o.gapInfo, limit, ctxs)})
@@ -237,6 +276,14 @@ func build(tier string) []*explore.Scenario {
 			cs.Shards = 4
 			scs = append(scs, cs)
 		}
+	}
+	// the accepted-but-unsent bound with larger queues: one writer issuing 2q+2 calls against a stalled sender
+	for _, q := range []int{3, 4} {
+		var eps []hlib.EP
+		for i := 0; i < 2*q+2; i++ {
+			eps = append(eps, []hlib.EP{W1, WV, C1}[i%3])
+		}
+		scs = append(scs, scenario(hlib.ChanCfg{Q: q, Until: true}, []wspec{{"bg", eps}}, false, 1, "/gap"))
 	}
 	return scs
 }
